@@ -14,9 +14,11 @@ PLAN = {
     "C04": ["strings", "literals", "corpus"],
     "C05": ["exprparens"],
     "C08": ["block", "corpus"],
-    "C09": ["blockrange"],
+    "C09": ["blockrange", "sortrequires"],
+    "C11": ["calls", "strings", "corpus"],
+    "C12": ["sortrequires", "corpus"],
     "C10": ["layout", "trivia", "corpus"],
-    "C06": ["exprparens", "trivia", "corpus"],
+    "C06": ["exprparens", "trivia", "calls", "corpus"],
     "C07": ["exprparens", "trivia", "corpus"],
 }
 
@@ -81,7 +83,8 @@ def src_corpus(tier, seed):
                 sweep["indent_width"] = [2, 3, 4]
             cases.append({
                 "id": "corpus:%s/%s" % (d, os.path.basename(f)), "src_file": f, "cfg": dict(cfg),
-                "sweep": sweep, "want": ["reformat", "lines"] + (["stmts"] if d == "inputs-ignore" else []),
+                "sweep": dict(sweep, sort_requires=[True]) if d == "inputs-sort-requires" else sweep,
+                "want": ["reformat", "lines", "calls", "strings"] + (["stmts"] if d == "inputs-ignore" else []) + (["sort"] if d == "inputs-sort-requires" else []),
                 "meta": {"src": "corpus", "dir": d},
             })
     return cases, {"module": "(corpus: tests/inputs*)", "cases": len(cases), "states": 0, "distinct": 0}
@@ -147,6 +150,32 @@ def src_blockrange(tier, seed):
     return _block_cases("MC_Block_range_%s.cfg" % tier, "g_blockrange_" + tier, "br")
 
 
+def src_sortrequires(tier, seed):
+    raw, st = tlc_generate("MC_SortRequires", "MC_SortRequires_%s.cfg" % tier, "g_sortreq_" + tier)
+    raw.sort(key=lambda c: json.dumps(c, sort_keys=True))
+    cases = []
+    for i, c in enumerate(raw):
+        c["id"] = "sr%d" % i
+        c["sweep"] = {"sort_requires": [True, False]}
+        c["want"] = ["sort"]
+        cases.append(c)
+    return cases, st
+
+
+def src_calls(tier, seed):
+    raw, st = tlc_generate("MC_Calls", "MC_Calls_%s.cfg" % tier, "g_calls_" + tier)
+    raw.sort(key=lambda c: json.dumps(c, sort_keys=True))
+    cases = []
+    for i, c in enumerate(raw):
+        c["id"] = "cl%d" % i
+        c["meta"]["sig"] = "form=%s,suffix=%s,kinds=%s" % (c["meta"]["form"], c["meta"]["suffix"], "+".join(sorted(set(c["meta"]["args"]))))
+        c["sweep"] = {"column_width": "all", "call_parentheses": ["Always", "NoSingleString", "NoSingleTable", "None", "Input"],
+                      "space_after_function_names": ["Never", "Definitions", "Calls", "Always"]}
+        c["want"] = ["reformat", "calls", "strings"]
+        cases.append(c)
+    return cases, st
+
+
 def src_strings(tier, seed):
     cfgs = ["MC_Strings_quick.cfg", "MC_Strings_quick2.cfg"] if tier == "quick" else ["MC_Strings_thorough.cfg", "MC_Strings_thorough2.cfg"]
     raw, stats = [], {"module": "MC_Strings", "cfg": cfgs, "states": 0, "distinct": 0, "wall": 0}
@@ -187,6 +216,8 @@ def src_literals(tier, seed):
 
 
 SOURCES = {
+    "calls": src_calls,
+    "sortrequires": src_sortrequires,
     "block": src_block,
     "blockrange": src_blockrange,
     "layout": src_layout,
